@@ -733,6 +733,16 @@ class CallMixin:  # pylint:disable=too-many-public-methods
                 if len(args) > 1:
                     return args[1]
                 self.raise_("StopIteration")
+        if name in ("itertools.product", "itertools.combinations", "itertools.permutations", "itertools.chain"):
+            import itertools as _it
+            seqs = [self.iterate(a, node, frame) for a in args[: (1 if short != "itertools.product" and short != "itertools.chain" else None)]]
+            if short == "itertools.product":
+                return [tuple(t) for t in _it.product(*seqs, repeat=kwargs.get("repeat", 1))]
+            if short == "itertools.chain":
+                return [x for s_ in seqs for x in s_]
+            r = args[1] if len(args) > 1 else kwargs.get("r")
+            fn_ = _it.combinations if short == "itertools.combinations" else _it.permutations
+            return [tuple(t) for t in fn_(seqs[0], r)]
         if name == "asyncio.gather":
             return GatherVal(list(args))
         if name in ("inspect.isawaitable", "asyncio.iscoroutine", "inspect.iscoroutine"):
